@@ -43,7 +43,7 @@ CLAIMS = {
                 'C07_keys_order_independent, C07_lookup_order_independent, C07_preorder_array/object (container before descendants, index '
                 'order, sorted key order); union and multi-name order is the written order by the specification. Hypotheses: distinct keys '
                 'at every level (encoding/json), no user function in the path. Tie: equal maps built in 3 insertion orders (aliased '
-                'sub-values included), each evaluated repeatedly and interleaved with other maps, must give one sequence, equal to the model.',
+                'sub-values included), each evaluated repeatedly and interleaved with other maps, must give one sequence, equal to the model. From the path TEXT: C07_wildcard_order_from_text — `$.*` / `$[*]` on an object returns its members in the order of sorted_keys (ascending, insertion-order independent).',
         'note': NOTE_COMMON + ' sort.Strings is assumed to sort byte-wise; Go map iteration order is not modelled (the model has no such notion).',
         'technique': 'Coq simulation proof on the specification (canonical form, mutual induction) + sort/permutation lemmas + '
                      'repeated-evaluation oracle + correspondence'},
@@ -239,7 +239,7 @@ CLAIMS = {
     'C20': {
         'text': 'C20_no_panic (no panic site reachable for ANY document, foreign Go values included: interface equality is partial in the '
                 'model), C20_navigation_type_error (steps on a foreign value fail with its Go type), C20_literal_comparisons_no_match. '
-                'Correspondence: documents with leaves of 26 non-JSON Go types (uncomparable ones included) against the model.',
+                'Correspondence: documents with leaves of 26 non-JSON Go types (uncomparable ones included) against the model. From the path TEXT: C20_foreign_root_from_text — every path of steps and filters fails on a document that is a foreign value (it is a leaf), whatever its type, identity or self-equality.',
         'note': NOTE_COMMON + EVAL_HYP + ' reflect.DeepEqual identity shortcut (same map object holding a func/NaN) is not modelled; such '
                 'cases are excluded from path-vs-path comparisons by the generator (DESIGN Appendix B).',
         'technique': T_EVAL},
